@@ -87,3 +87,16 @@ func (sm *SyncMap[K, V]) Set(key K, value V) {
 
 	sm.ma[key] = value
 }
+
+// SetIfPresent replaces the value of a key that is still in the map and reports whether it did.
+// Unlike Get followed by Set it cannot bring back a key that was deleted in between.
+func (sm *SyncMap[K, V]) SetIfPresent(key K, value V) bool {
+	sm.mu.Lock()
+	defer sm.mu.Unlock()
+
+	if _, ok := sm.ma[key]; !ok {
+		return false
+	}
+	sm.ma[key] = value
+	return true
+}
